@@ -5,6 +5,7 @@ import (
 	"strings"
 	"time"
 
+	"github.com/sarchlab/akita/v4/sim"
 	"github.com/sarchlab/mgpusim/v4/amd/kernels"
 	cpshim "github.com/sarchlab/mgpusim/v4/amd/timing/cp/verifshim"
 )
@@ -96,7 +97,112 @@ func c09PartCase(r *Run, gx, wx, ncu int, fails string) {
 	}
 }
 
+// c09OversizeCase: a kernel whose work-groups fit no CU even when the CU is empty (Lean: `Fits` is false,
+// `oversize_group_waits_forever`), launched next to a kernel that fits, on the real command
+// processor with CUs of the given shape. Expected by the model: the second kernel completes, the
+// oversize one is never mapped, never answered and never rejected; every later tick reports no
+// progress (the ticking component goes to sleep and nothing ever wakes it). The real code does the
+// same: reported as the finding C09.oversize.silent-wait.
+func c09OversizeCase(r *Run, sh c09Shape, nCU int, big [5]int, why string) {
+	e := &c09Env{r: r, rng: NewRng(1), model: true, byReq: map[string]int{}, cuRoom: c09PortCap, drvRoom: c09PortCap}
+	var shapeStr []string
+	for i := 0; i < nCU; i++ {
+		e.shapes = append(e.shapes, sh)
+		e.cus = append(e.cus, &c09CU{name: fmt.Sprintf("CU%d", i), shape: sh})
+		e.occ = append(e.occ, newC09Occ(sh))
+		shapeStr = append(shapeStr, sh.String())
+	}
+	e.line = []string{fmt.Sprintf("c09 cp alg=rr nd=8 klo=0 ko=1 sklo=0 thr=0 cus=%s", strings.Join(shapeStr, "|"))}
+	e.eng = &fakeEngine{}
+	e.cp = c09BuildCP(e.eng, e.cus, 0, 1, 0, 0)
+	conn := &fakeConn{name: "Conn"}
+	for _, p := range []sim.Port{e.cp.ToDriver, e.cp.ToCUs, e.cp.ToDMA, e.cp.ToTLBs, e.cp.ToRDMA, e.cp.ToPMC, e.cp.ToAddressTranslators, e.cp.ToCaches} {
+		conn.PlugIn(p)
+	}
+	e.cp.ToCUs.AcceptHook(e)
+	e.cp.ToDriver.AcceptHook(e)
+	e.drv = sim.NewPort(nil, 1, 1, "Driver.ToGPU")
+	e.launch(big[0], big[1], big[2], big[3], big[4]) // kernel 0: does not fit
+	e.launch(128, 64, 16, 4, 256)                    // kernel 1: fits
+	e.doTicks(4)
+	for len(e.outst) > 0 {
+		e.done([]int{0})
+	}
+	e.doTicks(6)
+	late := e.doTicks(300)
+	e.doProbe()
+	r.Checked("oversize")
+	r.Count("c09.oversize." + why)
+	r.Case(e.caseString(), strings.Join(e.outs, " "))
+	l0, l1 := e.launches[0], e.launches[1]
+	if !l0.stuckOK {
+		r.Failf("C09.oversize.harness", e.caseString(), "the harness considers the work-group placeable")
+		return
+	}
+	if l1.rsps != 1 {
+		r.Failf("C09.oversize.blocks-others", e.caseString(), "the kernel that fits was not answered next to an oversize kernel (%d of %d groups mapped)", len(l1.mapped), l1.numWG)
+	}
+	if !e.dead && len(l0.mapped) == 0 && l0.rsps == 0 && late == 0 {
+		r.Failf("C09.oversize.silent-wait", e.caseString(),
+			"%s: a work-group of %d work-items with %d SGPRs, %d VGPRs, %d LDS bytes fits no empty CU (%s); the dispatcher neither maps nor rejects it: 300 further ticks report no progress, no response, no error — the launch never returns",
+			why, big[1], big[2], big[3], big[4], sh.String())
+	}
+}
+
+// c09OvertakeCase replays the Lean witness `later_launch_overtakes_earlier` on the real command
+// processor: kernel 1 (one work-group that needs the whole CU) is launched before kernel 2 (three small
+// work-groups) and is mapped after all of them; every kernel is answered once.
+func c09OvertakeCase(r *Run) {
+	sh := c09Shape{wf: []int{2, 2}, s: 64, v: []int{512, 512}, lds: 1024}
+	e := &c09Env{r: r, rng: NewRng(1), model: true, byReq: map[string]int{}, cuRoom: c09PortCap, drvRoom: c09PortCap}
+	e.shapes = []c09Shape{sh}
+	e.cus = []*c09CU{{name: "CU0", shape: sh}}
+	e.occ = []*c09Occupancy{newC09Occ(sh)}
+	e.line = []string{"c09 cp alg=rr nd=8 klo=0 ko=1 sklo=0 thr=0 cus=" + sh.String()}
+	e.eng = &fakeEngine{}
+	e.cp = c09BuildCP(e.eng, e.cus, 0, 1, 0, 0)
+	conn := &fakeConn{name: "Conn"}
+	for _, p := range []sim.Port{e.cp.ToDriver, e.cp.ToCUs, e.cp.ToDMA, e.cp.ToTLBs, e.cp.ToRDMA, e.cp.ToPMC, e.cp.ToAddressTranslators, e.cp.ToCaches} {
+		conn.PlugIn(p)
+	}
+	e.cp.ToCUs.AcceptHook(e)
+	e.cp.ToDriver.AcceptHook(e)
+	e.drv = sim.NewPort(nil, 1, 1, "Driver.ToGPU")
+	e.launch(128, 64, 16, 4, 256)
+	e.launch(256, 256, 16, 4, 256)
+	e.launch(192, 64, 16, 4, 256)
+	e.doTicks(1)
+	e.doTicks(1)
+	e.doTicks(1)
+	e.done([]int{0})
+	e.doTicks(1)
+	e.doTicks(1)
+	e.done([]int{0})
+	e.done([]int{0})
+	e.done([]int{0})
+	e.doTicks(3)
+	e.done([]int{0})
+	e.doTicks(4)
+	e.done([]int{0})
+	e.doTicks(3)
+	r.Checked("overtake")
+	r.Case(e.caseString(), strings.Join(e.outs, " "))
+	joined := strings.Join(e.outs, " ")
+	iA, iC := strings.Index(joined, ":0:1:0:"), strings.LastIndex(joined, ":0:2:2:")
+	if iA < 0 || iC < 0 || iA < iC || e.launches[0].rsps != 1 || e.launches[1].rsps != 1 || e.launches[2].rsps != 1 {
+		r.Failf("C09.overtake.differs", e.caseString(), "expected kernel 2 (launched later) to be mapped entirely before kernel 1 and all three answered: %s", joined)
+	} else {
+		r.Count("c09.overtake.later-launch-first")
+	}
+}
+
 func runC09Deep(r *Run, rng *Rng, replay string) {
+	c09OvertakeCase(r)
+	shipped := c09Shape{wf: []int{10, 10, 10, 10}, s: 3200, v: []int{16384, 16384, 16384, 16384}, lds: 65536}
+	c09OversizeCase(r, shipped, 2, [5]int{1024, 1024, 16, 68, 0}, "vgpr")   // 16 wavefronts x 17 VGPR units: 3 per SIMD
+	c09OversizeCase(r, shipped, 1, [5]int{256, 256, 16, 4, 65537}, "lds")     // 257 LDS units > 256
+	c09OversizeCase(r, shipped, 2, [5]int{2048, 1024, 208, 4, 0}, "sgpr")     // 16 x 13 SGPR units > 200
+	c09OversizeCase(r, c09Shape{wf: []int{2, 2}, s: 64, v: []int{512, 512}, lds: 1024}, 2, [5]int{64, 64, 200, 4, 256}, "demo")
 	n := 700
 	if r.Tier == "thorough" {
 		n = 6000
